@@ -379,6 +379,8 @@ _CONN_SK = ["passage-protocol/src/connection.rs", "passage-protocol/src/crypto/m
 for _p in ("C01", "C02", "C03", "C04", "C06", "C07", "C08", "C10"):
     PROPS[_p]["skeleton"] = list(_CONN_SK)
     PROPS[_p]["ties"] = PROPS[_p].get("ties", []) + ["tools/skeleton.py: primitive sequence of Connection::listen / receive_packet / keep_alive / send_packet against the stored skeleton the model was transcribed from"]
+for _p in ("C01", "C02", "C03", "C04", "C06", "C07", "C08", "C10"):
+    PROPS[_p]["max_skipped"] = 0      # no conn case may fall outside the model (e.g. because a packet impl became unparsable)
 for _p in ("C02", "C10"):
     PROPS[_p]["skeleton"].append("passage-protocol/src/cookie.rs")
 PROPS["C05"]["skeleton"] = ["passage-protocol/src/crypto/stream.rs"]
